@@ -319,7 +319,8 @@ def check_greedy_agent(f: FuncInfo) -> list:
     return out
 
 
-def check_population_helpers(prog: Program) -> list:
+def check_population_helpers(prog: Program, size_only: bool = False) -> list:
+    """size_only (C10): only what determines the *number* of agents is required (extra ranking arguments are tolerated)."""
     out = []
     g = prog.func(f"{ABSTRACT}._greedy_select_population")
     newp = g.params[1] if len(g.params) > 1 else None
@@ -383,14 +384,16 @@ def check_population_helpers(prog: Program) -> list:
     ext = [n for n in own_nodes(e) if isinstance(n, ast.Call) and dotted(n.func) == "self._population.extend"
            and len(n.args) == 1 and dotted(n.args[0]) == ep]
     trim = [n for n in own_nodes(e) if isinstance(n, ast.Assign) and dotted(n.targets[0]) == "self._population"
-            and isinstance(n.value, ast.Call) and dotted(n.value.func) == "sort_and_trim" and len(n.value.args) == 2
+            and isinstance(n.value, ast.Call) and dotted(n.value.func) == "sort_and_trim"
+            and (len(n.value.args) == 2 and not n.value.keywords or (size_only and len(n.value.args) >= 2))
             and dotted(n.value.args[0]) == "self._population" and dotted(n.value.args[1]) == "self._config.population_size"]
     if len(ext) != 1 or len(trim) != 1 or ext[0].lineno > trim[0].lineno:
         out.append(("R5-extend-and-trim", e.node, "_extend_and_trim_population is not extend(new) followed by sort_and_trim(population, population_size)"))
     r = prog.func(f"{ABSTRACT}._replace_and_trim_population")
     rp = r.params[1]
     trim = [n for n in own_nodes(r) if isinstance(n, ast.Assign) and dotted(n.targets[0]) == "self._population"
-            and isinstance(n.value, ast.Call) and dotted(n.value.func) == "sort_and_trim" and len(n.value.args) == 2
+            and isinstance(n.value, ast.Call) and dotted(n.value.func) == "sort_and_trim"
+            and (len(n.value.args) == 2 and not n.value.keywords or (size_only and len(n.value.args) >= 2))
             and dotted(n.value.args[0]) == rp and dotted(n.value.args[1]) == "self._config.population_size"]
     if len(trim) != 1:
         out.append(("R5-replace-and-trim", r.node, "_replace_and_trim_population is not sort_and_trim(new, population_size)"))
